@@ -28,8 +28,11 @@ class AnyLifetime(LifetimeModel):
     def prms(self):
         return {}
 
-    def set_prms(self):
-        pass
+    def set_prms(self, table=None):
+        # like the shipped classes: new parameters replace the old ones and the cached tables are dropped
+        if table is not None:
+            self.table = table
+            self._reset_tables()
 
     def _survival_by_year_id(self, t, m):
         return self.table[m:, m, ...]
@@ -128,16 +131,30 @@ def pdf_oracle(sf, n, shape_no_t):
     return pdf
 
 
-def build_stock(kind, dims, lifetime=None, inflow=None, outflow=None, stock=None, name="st"):
+def prealloc(w, shape):
+    """a zero-filled result buffer as a user would hand it over after transposing a label x year table: a transposed view,
+    neither C-contiguous nor the owner of its memory"""
+    a = np.zeros(tuple(shape)[::-1], dtype=object if w.sym else np.float64).T
+    if w.sym:
+        from svx.sym import SymArr
+
+        a = a.view(SymArr)
+    return a
+
+
+def build_stock(kind, dims, lifetime=None, inflow=None, outflow=None, stock=None, name="st", keep_layout=False):
     def sa(v, nm):
-        return None if v is None else StockArray(dims=dims, values=v.copy(), name=nm)
+        # keep_layout: the array object is handed over as it is (its memory layout included) instead of as a fresh copy
+        return None if v is None else StockArray(dims=dims, values=v if keep_layout else v.copy(), name=nm)
 
     if kind == "flow":
         return SimpleFlowDrivenStock(dims=dims, inflow=sa(inflow, "in"), outflow=sa(outflow, "out"), name=name)
     if kind == "idsm":
-        return InflowDrivenDSM(dims=dims, inflow=sa(inflow, "in"), lifetime_model=lifetime, name=name)
+        return InflowDrivenDSM(dims=dims, inflow=sa(inflow, "in"), **({"stock": sa(stock, "st")} if stock is not None else {}),
+                               **({"outflow": sa(outflow, "out")} if outflow is not None else {}), lifetime_model=lifetime, name=name)
     if kind in ("sdsm_manual", "sdsm_lapack"):
-        return StockDrivenDSM(dims=dims, stock=sa(stock, "st"), lifetime_model=lifetime, solver=kind.split("_")[1], name=name)
+        return StockDrivenDSM(dims=dims, stock=sa(stock, "st"), **({"inflow": sa(inflow, "in")} if inflow is not None else {}),
+                              **({"outflow": sa(outflow, "out")} if outflow is not None else {}), lifetime_model=lifetime, solver=kind.split("_")[1], name=name)
     raise ValueError(kind)
 
 
